@@ -268,8 +268,36 @@ def m_log(it, x):
     return r
 
 
+def _truths(it, x, what):
+    c = x if isinstance(x, (list, tuple)) and not (isinstance(x, tuple) and x and isinstance(x[0], str)) else it.concrete_iter(x)
+    if c is None:
+        raise Unsupported(f"{what}() of a symbolic iterable")
+    from .interp import truth
+    out = []
+    for v in c:
+        t = truth(it.ctx, v)
+        out.append(z3.BoolVal(t) if isinstance(t, bool) else t)
+    return out
+
+
+def m_any(it, x):
+    ts = _truths(it, x, 'any')
+    if not ts:
+        return False
+    r = z3.simplify(z3.Or(*ts))
+    return True if z3.is_true(r) else (False if z3.is_false(r) else r)
+
+
+def m_all(it, x):
+    ts = _truths(it, x, 'all')
+    if not ts:
+        return True
+    r = z3.simplify(z3.And(*ts))
+    return True if z3.is_true(r) else (False if z3.is_false(r) else r)
+
+
 BUILTINS = {}
-for _n, _f in [('abs', m_abs), ('min', m_min), ('max', m_max), ('len', m_len), ('tuple', m_tuple), ('list', m_list),
+for _n, _f in [('any', m_any), ('all', m_all), ('abs', m_abs), ('min', m_min), ('max', m_max), ('len', m_len), ('tuple', m_tuple), ('list', m_list),
                ('set', m_set), ('dict', m_dict), ('range', m_range), ('zip', m_zip), ('int', m_int),
                ('float', m_float), ('isinstance', m_isinstance), ('type', m_type), ('reversed', m_reversed)]:
     BUILTINS[_n] = Model(_n, _f)
